@@ -521,7 +521,10 @@ def db_literal(rec, text, st, core, groups, case, cls):
             if b <= st or a >= en:
                 continue
             gd = m.groupdict()
-            if (a, b) != (st, en) or any(gd.get(k) != v for k, v in groups.items()) or o.extra["short"]:
+            srcs = {x.reporter.source for x in list(o.extra["exact_editions"]) + list(o.extra["variation_editions"])}
+            if (a, b) != (st, en) or any(gd.get(k) != v for k, v in groups.items()) or o.extra["short"] \
+                    or (srcs - {case["origin"]["db"]}):
+                # ... or the same string is also a reporter / journal / statute string of another kind
                 rec.count("second_pattern_tie")
                 rec.count("db_member_tie")
                 return
